@@ -10,6 +10,7 @@ use fe2o3_amqp_types::sasl::SaslCode;
 use serde_amqp::from_slice;
 use serde_amqp::primitives::Uuid;
 
+// @tier probe
 // @unwind 3
 // @bound MessageId::Ulong(v), every 64-bit v (including 0, 255, 256)
 // @also C05
@@ -31,6 +32,7 @@ harness!(c03_rt_message_id_ulong, |s| {
     std::mem::forget(y);
 });
 
+// @tier probe
 // @unwind 3
 // @bound every 64-bit value written as the full-width ulong (0x80), every 8-bit value as smallulong (0x53), zero as ulong0 (0x44), decoded as MessageId
 harness!(c05_dec_message_id_ulong_variants, |s| {
@@ -49,6 +51,7 @@ harness!(c05_dec_message_id_ulong_variants, |s| {
     std::mem::forget((y, y2, y3));
 });
 
+// @tier probe
 // @unwind 3
 // @bound MessageId::Uuid, all 16 bytes symbolic
 harness!(c03_rt_message_id_uuid, |s| {
@@ -97,6 +100,7 @@ macro_rules! small_enum {
 small_enum!(c03_rt_rcv_settle_mode, ReceiverSettleMode, UBYTE, [0 => ReceiverSettleMode::First, 1 => ReceiverSettleMode::Second], 1);
 small_enum!(c03_rt_snd_settle_mode, SenderSettleMode, UBYTE, [0 => SenderSettleMode::Unsettled, 1 => SenderSettleMode::Settled, 2 => SenderSettleMode::Mixed], 2);
 small_enum!(c03_rt_sasl_code, SaslCode, UBYTE, [0 => SaslCode::Ok, 1 => SaslCode::Auth, 2 => SaslCode::Sys, 3 => SaslCode::SysPerm, 4 => SaslCode::SysTemp], 4);
+// @tier-of c03_rt_terminus_durability probe
 small_enum!(c03_rt_terminus_durability, TerminusDurability, SMALLUINT, [0 => TerminusDurability::None, 1 => TerminusDurability::Configuration, 2 => TerminusDurability::UnsettledState], 2);
 
 // @unwind 6
